@@ -79,7 +79,7 @@ Definition R (q : wstate) (c : call) : Prop :=
   match q with
   | W0 => h_pc c <> PNewFrag /\ (f_cur c = true -> f_first c = true)
   | WMid => f_state c <> FStart /\ (h_pc c = PNewFrag \/ (f_cur c = true -> f_first c = false))
-  | WEnd => g_dones c = true \/ h_pc c = PDone
+  | WEnd => g_dones c = true \/ h_pc c = PDone \/ h_pc c = PDead
   end.
 
 Definition good (st : state) (id : Z) : Prop :=
@@ -91,7 +91,7 @@ Definition good (st : state) (id : Z) : Prop :=
       (count_req id (requested st) = O -> proj id (sent st) = [] /\ rd_pc st <> RChecked id)
   | Some c =>
       rd_pc st <> RChecked id /\
-      (rd_pc st = RAdded id -> h_pc c = PAdmit) /\
+      (rd_pc st = RAdded id -> h_pc c = PAdmit /\ proj id (sent st) = []) /\
       (1 <= count_req id (requested st))%nat /\
       exists q, wire_run W0 (proj id (sent st)) = Some q /\ R q c
   end.
@@ -560,8 +560,9 @@ Proof.
   - (* RdCallReq3 *)
     destruct (rd_pc st); try discriminate. unfold with_call in H.
     destruct (get id (calls st)) as [c|]; [|discriminate].
+    destruct (send_syserr_fields st id full) as (_ & SB & SC & _).
     destruct (cst st); [|destruct (shut_call c)..]; apply Some_inj in H; subst st';
-      (apply mono_same; cbn [misused requested set_rd]; rewrite ?mis_commit, ?req_commit; reflexivity).
+      (apply mono_same; cbn [misused requested set_rd]; rewrite ?mis_commit, ?req_commit, ?SB, ?SC; reflexivity).
   - destruct (rd_pc st); try discriminate. apply Some_inj in H; subst st'.
     destruct (close_fields st) as (_ & _ & B & _ & C). apply mono_same; cbn; assumption.
   - destruct (rd_pc st); try discriminate. apply Some_inj in H; subst st'.
@@ -602,7 +603,7 @@ Proof.
   destruct (Z.eq_dec id lid) as [->|N].
   - unfold good in G. rewrite Hg in G. destruct G as (A & B & C & q & Hq & HR).
     destruct (hstep_same _ _ _ _ _ _ Hg Hq HR H Hm) as (Hpc & c' & q' & Hg' & Hq' & HR').
-    unfold good. rewrite Hg', Frd, Freq. split; [exact A|]. split; [intros E; elim Hpc; auto|].
+    unfold good. rewrite Hg', Frd, Freq. split; [exact A|]. split; [intros E; elim Hpc; apply (B E)|].
     split; [exact C|]. exists q'. auto.
   - destruct (Fo id N) as [E1 E2]. eapply good_ext; eassumption.
 Qed.
@@ -688,7 +689,7 @@ Proof.
       * rewrite get_put_same.
         destruct (get rid (calls st)) as [c|]; [destruct G as (G1 & _); congruence|].
         destruct G as (G1 & _ & _ & G4). specialize (G1 eq_refl).
-        split; [discriminate|]. split; [reflexivity|]. split.
+        split; [discriminate|]. split; [intros _; split; [reflexivity|exact G1]|]. split.
         { destruct (count_req rid (requested st)) eqn:Z0; [|lia].
           destruct (G4 eq_refl) as [_ X]. congruence. }
         exists W0. rewrite G1. split; [reflexivity | apply R_new].
@@ -702,25 +703,36 @@ Proof.
   - (* RdCallReq3 *)
     destruct (rd_pc st) as [| |rid| |] eqn:Hrd; try discriminate.
     unfold with_call in H. destruct (get rid (calls st)) as [c|] eqn:Hg; [|discriminate].
-    assert (X : exists c' chk, st' = set_rd (commit st rid c' chk) RIdle /\
-                  (h_pc c = PAdmit -> forall q, R q c -> R q c')).
-    { destruct (cst st).
-      - apply Some_inj in H. eexists _, _. split; [symmetry; exact H|].
-        intros Hpc q HR. destruct q; Rsolve.
-      - destruct (shut_call c) as [c1 chk] eqn:E. apply Some_inj in H. eexists _, _.
-        split; [symmetry; exact H|]. intros Hpc q HR. destruct q; Rsolve.
-      - destruct (shut_call c) as [c1 chk] eqn:E. apply Some_inj in H. eexists _, _.
-        split; [symmetry; exact H|]. intros Hpc q HR. destruct q; Rsolve.
-      - destruct (shut_call c) as [c1 chk] eqn:E. apply Some_inj in H. eexists _, _.
-        split; [symmetry; exact H|]. intros Hpc q HR. destruct q; Rsolve. }
-    destruct X as (c' & chk & -> & HR'). clear H.
+    (* the re-check fails: the call is declined (error frame unless the buffer is full), then shut down *)
+    assert (Hna : forall c1 chk, shut_call c = (c1, chk) ->
+              good (set_rd (commit (fst (conn_send_syserr st rid full)) rid (upd_pc c1 PDead) chk) RIdle) id).
+    { intros c1 chk E. destruct (send_syserr_fields st rid full) as (S1 & S2 & _ & S4 & S5).
+      unfold good in *. cbn [calls requested rd_pc sent set_rd]. rewrite sent_commit, req_commit, S2. rewrite Hrd in G.
+      destruct (Z.eq_dec id rid) as [->|N].
+      - rewrite get_commit_same. rewrite Hg in G. destruct G as (_ & G2 & G3 & q & Hq & HR).
+        destruct (G2 eq_refl) as [Hpc Hnil]. rewrite Hnil in Hq. cbn in Hq. inversion Hq. subst q.
+        split; [discriminate|]. split; [discriminate|]. split; [exact G3|].
+        destruct S5 as [-> | ->].
+        + exists W0. rewrite Hnil. split; [reflexivity|]. Rsolve.
+        + exists WEnd. rewrite proj_snoc_same, Hnil. split; [reflexivity|]. Rsolve.
+      - replace (get id (calls (commit (fst (conn_send_syserr st rid full)) rid (upd_pc c1 PDead) chk))) with (get id (calls st))
+          by (unfold commit; destruct chk; cbn; rewrite S1; symmetry; apply get_put_other; exact N).
+        replace (proj id (sent (fst (conn_send_syserr st rid full)))) with (proj id (sent st))
+          by (destruct S5 as [-> | ->]; [reflexivity | symmetry; apply proj_snoc_other; exact N]).
+        destruct (get id (calls st)) as [c0|].
+        + destruct G as (_ & _ & G3 & G4). split; [discriminate|]. split; [discriminate|]. auto.
+        + destruct G as (_ & G2 & _ & G4). split; [discriminate|]. split; [exact G2|].
+          split; [discriminate|]. intros Z0. destruct (G4 Z0) as [P0 _]. split; [exact P0 | discriminate]. }
+    destruct (cst st); [|destruct (shut_call c) as [c1 chk] eqn:E; apply Some_inj in H; subst st'; apply Hna; reflexivity ..].
+    apply Some_inj in H. subst st'. clear Hna.
     unfold good in *. cbn [calls requested rd_pc sent set_rd]. rewrite sent_commit, req_commit.
     rewrite Hrd in G.
     destruct (Z.eq_dec id rid) as [->|N].
     + rewrite get_commit_same. rewrite Hg in G. destruct G as (_ & G2 & G3 & q & Hq & HR).
-      split; [discriminate|]. split; [discriminate|]. split; [exact G3|]. exists q. auto.
-    + replace (get id (calls (commit st rid c' chk))) with (get id (calls st))
-        by (unfold commit; destruct chk; cbn; symmetry; apply get_put_other; exact N).
+      destruct (G2 eq_refl) as [Hpc _].
+      split; [discriminate|]. split; [discriminate|]. split; [exact G3|]. exists q. split; [exact Hq|]. destruct q; Rsolve.
+    + replace (get id (calls (commit st rid (upd_pc c PNotStarted) false))) with (get id (calls st))
+        by (unfold commit; cbn; symmetry; apply get_put_other; exact N).
       destruct (get id (calls st)) as [c0|].
       * destruct G as (_ & _ & G3 & G4). split; [discriminate|]. split; [discriminate|]. auto.
       * destruct G as (_ & G2 & _ & G4). split; [discriminate|]. split; [exact G2|].
@@ -824,7 +836,7 @@ Qed.
    error frame follows the final call res frame (response.err is nil after a successful
    response, so SendSystemError's guard does not stop it) *)
 Definition misuse_labels : list label :=
-  [RdCallReq1 7 false; RdCallReq2 true false; RdCallReq3; HStart 7 true; HResp 7;
+  [RdCallReq1 7 false; RdCallReq2 true false; RdCallReq3 false; HStart 7 true; HResp 7;
    HArgWriter 7 1; HClose 7 false; HArgWriter 7 2; HClose 7 false; HArgWriter 7 3;
    HClose 7 false; HFlushSel 7 true; HDone 7; HSysErr 7 false].
 
@@ -836,7 +848,7 @@ Proof. eexists. split; [vm_compute; reflexivity|]. vm_compute. intuition. Qed.
 
 (* two SendSystemError calls: two error frames *)
 Definition misuse2_labels : list label :=
-  [RdCallReq1 7 false; RdCallReq2 true false; RdCallReq3; HStart 7 true; HResp 7;
+  [RdCallReq1 7 false; RdCallReq2 true false; RdCallReq3 false; HStart 7 true; HResp 7;
    HSysErr 7 false; HSysErr 7 false].
 
 Lemma respwire_two_syserr_refuted :
@@ -848,7 +860,7 @@ Proof. eexists. split; [vm_compute; reflexivity|]. vm_compute. intuition. Qed.
    error frame for that id and tears the connection down; the handler of the first call,
    already past checkError, may still enqueue its fragment behind the error frame *)
 Definition dup_labels : list label :=
-  [RdCallReq1 7 false; RdCallReq2 true false; RdCallReq3; HStart 7 true; HResp 7;
+  [RdCallReq1 7 false; RdCallReq2 true false; RdCallReq3 false; HStart 7 true; HResp 7;
    HArgWriter 7 1; HClose 7 false; HArgWriter 7 2; HClose 7 false; HArgWriter 7 3;
    HClose 7 false;                                   (* flushFragment: checkError passed *)
    RdCallReq1 7 false; RdCallReq2 true false; RdProtoClose; RdProtoStop;
@@ -1052,9 +1064,14 @@ Proof.
   - (* RdCallReq3 *)
     destruct (rd_pc st) as [| |rid| |]; try discriminate. unfold with_call in H.
     destruct (get rid (calls st)) as [c|] eqn:Hg; [|discriminate].
+    destruct (send_syserr_fields st rid full) as (S1 & _ & S3 & _).
+    assert (Hg1 : get rid (calls (fst (conn_send_syserr st rid full))) = Some c) by (rewrite S1; exact Hg).
     destruct (cst st); [|destruct (shut_call c) as [c1 chk] eqn:E; apply dones_shut in E ..];
-      apply Some_inj in H; subst st'; cbn [misused calls set_rd]; rewrite mis_commit;
-      (split; [reflexivity|]); intros Hx D; refine (dones_commit _ _ _ _ _ _ _ Hg _ Hx D); cbn; congruence.
+      apply Some_inj in H; subst st'; cbn [misused calls set_rd]; rewrite mis_commit, ?S3;
+      (split; [reflexivity|]); intros Hx D;
+      first [ refine (dones_commit _ _ _ _ _ _ _ Hg _ Hx D); cbn; congruence
+            | destruct (dones_commit _ _ _ _ _ _ _ Hg1 (eq_trans (eq_refl : g_dones (upd_pc c1 PDead) = g_dones c1) E) Hx D) as (c0 & Hc0 & Hd0);
+              exists c0; split; [rewrite <- S1; exact Hc0 | exact Hd0] ].
   - destruct (rd_pc st); try discriminate. apply Some_inj in H; subst st'.
     destruct (close_fields st) as (A & _ & _ & _ & C). cbn. rewrite A, C. split; [reflexivity | eauto].
   - destruct (rd_pc st); try discriminate. apply Some_inj in H; subst st'.
@@ -1224,8 +1241,9 @@ Proof.
         + lia.
       - destruct (rd_pc st); try discriminate. unfold with_call in E.
         destruct (get id0 (calls st)) as [c|]; [|discriminate].
+        destruct (send_syserr_fields st id0 full) as (_ & S2 & _).
         destruct (cst st); [|destruct (shut_call c)..]; apply Some_inj in E; subst st1;
-          cbn [requested set_rd]; rewrite req_commit; lia.
+          cbn [requested set_rd]; rewrite req_commit, ?S2; lia.
       - destruct (rd_pc st); try discriminate. apply Some_inj in E; subst st1.
         destruct (close_fields st) as (_ & _ & C & _). cbn [requested set_rd]. rewrite C. lia.
       - destruct (rd_pc st); try discriminate. apply Some_inj in E; subst st1.
